@@ -506,6 +506,16 @@ def emit_one(v, key, how, d, entry, prime=False):
     return line
 
 
+_OTHER_GEN = {}
+
+
+def _other_gen(v, rng):
+    o = "2.0" if v == "2.1" else "2.1"
+    if o not in _OTHER_GEN:
+        _OTHER_GEN[o] = schema.Gen(o, rng)
+    return _OTHER_GEN[o]
+
+
 def emit_lines(chk, quick, junk=True):
     rng = chk.rng
     lines = []
@@ -517,12 +527,23 @@ def emit_lines(chk, quick, junk=True):
             for base in bases:
                 lines.append(emit_one(v, key, "valid_base", base, "parse"))
                 cs = corruptions(g, key, base, rng, quick)
+                # inter-property rules that only the OTHER spec version has, broken here: whether this version accepts such an object or not is not judged, but whatever
+                # code was carried over from the other version must answer within the error family and emit valid output
+                other = _other_gen(v, rng)
+                if key in other.types:
+                    names = {d["name"] for d in g.types[key]["properties"]}
+                    foreign = [c for c in other.types[key]["constraints"] if c not in g.types[key]["constraints"]
+                               and all(n in names for n in ([c.get("a"), c.get("b")] if "a" in c else c.get("of", [])) if n)]
+                    foreign_cs = [("foreign_" + how, d) for how, d in constraint_violations(g, key, base, dict(g.types[key], constraints=foreign))]
+                else:
+                    foreign_cs = []
                 if quick:
                     always = [c for c in cs if ":ref_object" in c[0] or ":ref_text_braces" in c[0] or c[0].startswith(("constraint:", "satisfied_by_falsy:")) or "hash_value_digits_as_number" in c[0]
                               or c[0].endswith((":wrongkind:bool", ":wrongkind:int")) and any(p["name"] == c[0].split(":")[0] and p["kind"] in ("integer", "float", "boolean") for p in g.types[key]["properties"])]
                     cs = rng.sample(cs, min(len(cs), 28)) + always
+                cs = cs + foreign_cs
                 for how, d in cs:
-                    entry = rng.choice(["parse", "parse", "constructor", "parse_dict"]) if quick else None
+                    entry = rng.choice(["parse", "parse", "constructor", "parse_dict"]) if quick and not how.startswith("foreign_") else None
                     ens = [entry] if entry else ["parse", "constructor", "parse_dict"]
                     if is_obs20(key, v) and (not quick or rng.random() < 0.5 or ":ref_" in how):
                         ens = ens + ["container_member"]
@@ -1138,7 +1159,21 @@ def reuse_and_custom_objects(chk):
     tl = {"extension_type": "toplevel-property-extension"}
     seq = [("ext_A", dict(rank=1, extensions={a: tl})), ("ext_A_and_B", dict(rank=2, weight=3, extensions={a: tl, b: tl})), ("ext_A_again", dict(rank=4, extensions={a: tl})),
            ("ext_B_and_A", dict(rank=5, weight=6, shade="blue", extensions={b: tl, a: tl})), ("ext_B", dict(weight=7, extensions={b: tl})),
-           ("ext_C_nested", dict(extensions={cc: {"extension_type": "property-extension", "depth": 0}})), ("ext_A_third_time", dict(rank=8, extensions={a: tl}))]
+           ("ext_C_nested", dict(extensions={cc: {"extension_type": "property-extension", "depth": 0}})), ("ext_A_third_time", dict(rank=8, extensions={a: tl})),
+           # extensions of different kinds in one object, in every document order: a property extension (or a predefined one) before / between / after toplevel ones
+           ("ext_C_then_A", dict(rank=1, extensions={cc: {"extension_type": "property-extension", "depth": 1}, a: tl})),
+           ("ext_A_then_C", dict(rank=1, extensions={a: tl, cc: {"extension_type": "property-extension", "depth": 1}})),
+           ("ext_C_A_B", dict(rank=1, weight=2, extensions={cc: {"extension_type": "property-extension", "depth": 1}, a: tl, b: tl})),
+           ("ext_A_C_B", dict(rank=1, weight=2, extensions={a: tl, cc: {"extension_type": "property-extension", "depth": 1}, b: tl})),
+           ("ext_unregistered_then_B", dict(weight=2, extensions={"extension-definition--dddddddd-1111-4111-8111-111111111111": {"extension_type": "property-extension", "q": 1}, b: tl}))]
+    for how, f in (("predefined_then_A", lambda: stix2.v21.File(name="f", rank=3, extensions={"ntfs-ext": {"sid": "s"}, a: tl})),
+                   ("A_then_predefined", lambda: stix2.v21.File(name="f", rank=3, extensions={a: tl, "ntfs-ext": {"sid": "s"}})),
+                   ("predefined_then_A:parsed", lambda: stix2.parse({"type": "file", "spec_version": "2.1", "id": "file--11111111-1111-4111-8111-111111111111", "name": "f", "rank": 3,
+                                                                     "extensions": {"ntfs-ext": {"sid": "s"}, a: tl}}))):
+        try:
+            out.append(("2.1", "observables:file", "registered_extension:" + how, f()))
+        except Exception as e:  # noqa
+            out.append(("2.1", "observables:file", "registered_extension:" + how, e))
     for how, kw in seq:
         try:
             out.append(("2.1", "objects:identity", "registered_extension:" + how, stix2.v21.Identity(name="n", **kw)))
@@ -1364,6 +1399,11 @@ def custom_lines(chk, quick):
                 ctl["extensions"] = dict(ctl.get("extensions", {}), **{"extension-definition--" + g.uid(): dict(extdef)})
                 lines.append(custom_one(v, key, "no_custom_content+extension_definition", ctl, "permissive", False))
                 inj = inj + more
+            # the parser's own keyword arguments arriving as members of the content (on the object, on the enclosing bundle): content cannot switch strictness off
+            for place, d in list(inj[:3]) + ([inj[len(inj) // 2]] if len(inj) > 6 else []):
+                if isinstance(d, dict):
+                    for kwname in ("allow_custom", "interoperability"):
+                        inj.append((place + "+member_named_%s" % kwname, dict(d, **{kwname: True})))
             for place, d in inj:
                 obs = is_obs20(key, v)
                 lines.append(custom_one(v, key, place, d, "strict", obs))
@@ -1373,6 +1413,8 @@ def custom_lines(chk, quick):
                     if v == "2.0":
                         b["spec_version"] = "2.0"
                     lines.append(custom_one(v, "objects:bundle", "bundle_member:" + place, b, "strict", False))
+                    if "member_named_" not in place and rng.random() < 0.2:
+                        lines.append(custom_one(v, "objects:bundle", "bundle_member:" + place + "+bundle_member_named_allow_custom", dict(b, allow_custom=True), "strict", False))
                     lines.append(custom_one(v, "objects:bundle", "bundle_member:" + place, b, "permissive", False))
             # a clean object must not be flagged
             lines.append(custom_one(v, key, "no_custom_content", base, "permissive", is_obs20(key, v)))
